@@ -27,13 +27,13 @@ func propC08() *Property {
 			"callbacks passed to library functions run synchronously in the caller's goroutine unless listed as asynchronous (time.AfterFunc)",
 		},
 		Rules: []Rule{
-			{ID: "C08.R1", Title: "guarded-by: UI state, output callback and render caches only with State.m held", Floor: 100, Run: func(c *Ctx) { c08R1(c, get(c.P)) }},
-			{ID: "C08.R2", Title: "in-flight flag protocol covers the loaders' unlocked reads", Floor: 2, Run: func(c *Ctx) { c08R2(c, get(c.P)) }},
-			{ID: "C08.R3", Title: "lock pairing on every return path", Floor: 8, Run: func(c *Ctx) { c08R3(c, get(c.P)) }},
-			{ID: "C08.R4", Title: "no re-acquisition of the non-reentrant mutex", Floor: 8, Run: func(c *Ctx) { c08R4(c, get(c.P)) }},
-			{ID: "C08.R5", Title: "fan-out goroutines: disjoint write sets, balanced WaitGroup", Floor: 10, Run: c08R5},
-			{ID: "C08.R6", Title: "shared documents, configuration and package state are read-only", Floor: 5, Run: c08R6},
-			{ID: "C08.R7", Title: "goroutine inventory", Floor: 15, Run: func(c *Ctx) { c08R7(c, get(c.P)) }},
+			{ID: "C08.R1", Title: "guarded-by: UI state, output callback and render caches only with State.m held", Floor: 153, Run: func(c *Ctx) { c08R1(c, get(c.P)) }},
+			{ID: "C08.R2", Title: "in-flight flag protocol covers the loaders' unlocked reads", Floor: 1, Run: func(c *Ctx) { c08R2(c, get(c.P)) }},
+			{ID: "C08.R3", Title: "lock pairing on every return path", Floor: 19, Run: func(c *Ctx) { c08R3(c, get(c.P)) }},
+			{ID: "C08.R4", Title: "no re-acquisition of the non-reentrant mutex", Floor: 62, Run: func(c *Ctx) { c08R4(c, get(c.P)) }},
+			{ID: "C08.R5", Title: "fan-out goroutines: disjoint write sets, balanced WaitGroup", Floor: 40, Run: c08R5},
+			{ID: "C08.R6", Title: "shared documents, configuration and package state are read-only", Floor: 28, Run: c08R6},
+			{ID: "C08.R7", Title: "goroutine inventory", Floor: 12, Run: func(c *Ctx) { c08R7(c, get(c.P)) }},
 		},
 	}
 }
